@@ -21,7 +21,7 @@ def Code.binders : Code → List Name
   | .tuple _ bs body => bs.flatMap Binder.names ++ body.binders
   | .slice _ bs body _ => bs.flatMap Binder.names ++ body.binders
   | .mapGet _ _ _ body _ => Name.mapValue :: body.binders
-  | .set _ preds _ _ => Name.setElem :: preds.binders
+  | .set _ preds _ _ => Name.setSrc :: Name.setElem :: preds.binders
   | _ => []
 def Codes.binders : Codes → List Name
   | .nil => []
@@ -49,6 +49,9 @@ theorem C07_every_binder_reserved (n : Name) : n.reserved = true := by
     simp [String.toList_append]
   | setElem =>
     show ("__".toList).isPrefixOf ("__set_elem" ++ "").toList = true
+    simp [String.toList_append]
+  | setSrc =>
+    show ("__".toList).isPrefixOf ("__set_src" ++ "").toList = true
     simp [String.toList_append]
   | field f =>
     cases f with
